@@ -2,6 +2,7 @@ package db
 
 import (
 	"errors"
+	"Havoc/pkg/verifhook"
 	"log"
 )
 
@@ -33,6 +34,7 @@ func (db *DB) ListenerAdd(Name, Protocol, Config string) error {
 	}
 
 	/* add the data to the listener table */
+	verifhook.Point("db.ListenerAdd.exec")
 	_, err = stmt.Exec(Name, Protocol, Config)
 	if err != nil {
 		return err
@@ -157,6 +159,7 @@ func (db *DB) ListenerRemove(Name string) error {
 	}
 
 	// execute statement
+	verifhook.Point("db.ListenerRemove.exec")
 	_, err = stmt.Exec(Name)
 	stmt.Close()
 
